@@ -287,6 +287,7 @@ pub fn check(s: &Scenario) -> CheckResult {
                 accept.set(r.inner_accept);
                 upd_err.set(r.inner_update_err);
                 let seen = read_data(term);
+                ensure!(same_seen(&seen, &seen_at(term)), "C20/Pid/combined-read", "round {}: the terminal's combined read is {:?}, but its state read is {:?} and its command read {:?}", ri, seen, read_state(term), read_command(term));
                 log.borrow_mut().clear();
                 let ret = catch(|| w.update());
                 ensure!(ret.is_ok(), "C20/Pid/panic", "round {}: update panicked: {:?}", ri, ret);
